@@ -6,6 +6,7 @@
      scalar * matrix -> mscale                1j -> ci              real / real -> kdiv        complex / real -> cdivr
      A[i, j] = v -> mset                      enumerate -> enum     l[k:] -> skipn k           itertools.product(range a, range b) -> list_prod
      reduce(add, l) -> reduce_add  (Python raises TypeError on the empty list; here mzero — the equivalence theorems assume l <> [])
+     x < y (reals) -> rltb     l[i] = v (list of reals) -> lset     np.diag(l) -> np_diag     numpy.linalg.eigh -> OPAQUE (its results are parameters)
      l[k] -> mnth  (Python raises IndexError out of range; here mzero — only used with k < length l)                              *)
 From Coq Require Import Arith List Bool.
 From QV.Core Require Import OF Sums Mat Cplx.
@@ -23,5 +24,10 @@ Definition mset (A : cmat) (a b : nat) (v : Cx) : cmat := fun i j => if Nat.eqb 
 Definition enum {A : Type} (l : list A) : list (nat * A) := combine (seq 0 (length l)) l.
 Definition reduce_add (l : list cmat) : cmat := match l with [] => mzero | x :: t => fold_left (fun a b => madd a b) t x end.
 Definition mnth (l : list cmat) (k : nat) : cmat := nth k l mzero.
+(* real scalars / lists of reals (the eigenvalues numpy.linalg.eigh returns):  x < y -> rltb ;  l[i] = v -> lset ;  np.diag(l) -> np_diag *)
+Definition rltb (x y : F) : bool := negb (kleb F y x).
+Fixpoint lset (l : list F) (i : nat) (v : F) : list F :=
+  match l, i with [], _ => [] | _ :: t, O => v :: t | x :: t, S i' => x :: lset t i' v end.
+Definition np_diag (l : list F) : cmat := fun i j => if Nat.eqb i j then zof (nth i l (c0 F)) else c0 Cx.
 End PySem.
 Arguments enum {A} l.
